@@ -19,15 +19,15 @@ import (
 
 // C07Case: one batch of N tasks on one side under one fault plan; Choices < nil = enumerate.
 type C07Case struct {
-	Side     string `json:"side"`     // "encode" or "decode"
-	N        int    `json:"n"`        // tasks in the batch
-	Blocks   int    `json:"blocks"`   // decode: blocks present in the stream (Blocks < N: task Blocks+1 meets the end marker)
-	From     int    `json:"from,omitempty"` // decode: block range (skipped-block outcomes)
-	To       int    `json:"to,omitempty"`
-	BadBlock int    `json:"bad_block,omitempty"` // decode: this block fails its checksum (data-caused failure after publishing)
-	Fault    *Fault `json:"fault,omitempty"`
-	Choices  []int  `json:"choices,omitempty"` // fixed schedule (replay / random mode)
-	Enumerate bool  `json:"enumerate,omitempty"`
+	Side      string `json:"side"`           // "encode" or "decode"
+	N         int    `json:"n"`              // tasks in the batch
+	Blocks    int    `json:"blocks"`         // decode: blocks present in the stream (Blocks < N: task Blocks+1 meets the end marker)
+	From      int    `json:"from,omitempty"` // decode: block range (skipped-block outcomes)
+	To        int    `json:"to,omitempty"`
+	BadBlock  int    `json:"bad_block,omitempty"` // decode: this block fails its checksum (data-caused failure after publishing)
+	Fault     *Fault `json:"fault,omitempty"`
+	Choices   []int  `json:"choices,omitempty"` // fixed schedule (replay / random mode)
+	Enumerate bool   `json:"enumerate,omitempty"`
 }
 
 const c07Block = 1024
@@ -108,7 +108,7 @@ func c07Exec(c C07Case, s *Sched) string {
 		}
 		stream = append([]byte(nil), stream...)
 		k := st.Blocks[c.BadBlock-1]
-		pos := (k.PayloadStart+k.End)/2/8
+		pos := (k.PayloadStart + k.End) / 2 / 8
 		stream[pos] ^= 0x5A
 	}
 	extra := map[string]any{}
